@@ -34,6 +34,13 @@ func init() {
 		"math.IsNaN":            libIsNaN,
 		"math.Floor":            libFloor,
 		"sort.SearchInts":       libSearch,
+		"(github.com/biogo/hts/sam.CigarOp).Type":       libCigType,
+		"(github.com/biogo/hts/sam.CigarOpType).String": libCigTypeString,
+		"(github.com/biogo/hts/sam.CigarOp).Len":        libCigLen,
+		"(github.com/biogo/hts/sam.Seq).Expand":         libSeqExpand,
+		"github.com/biogo/hts/sam.NewReader":            libSamNewReader,
+		"(*github.com/biogo/hts/sam.Reader).Header":     libSamHeader,
+		"(*github.com/biogo/hts/sam.Reader).Read":       libSamRead,
 		"sort.SearchStrings":    libSearch,
 		"sort.SliceStable":      libSortSlice,
 		"bufio.NewScanner":          libNewScanner,
@@ -499,4 +506,79 @@ func libSearch(x *Exec, n *ast.CallExpr, recv *Val, recvExpr ast.Expr, st *State
 		fmt.Sprintf("(forall ((%s Int)) (=> (and (<= (+ %s %s) %s) (< %s (+ %s %s))) (not %s)))", k, off, idx, k, k, off, ln, lt(app("select", arr, k), v.T))))
 	c.trusted["sort.SearchInts/SearchStrings: least index with element >= x on an ascending slice (sortedness checked at the call site)"] = true
 	return Val{T: idx, Ty: tInt}
+}
+
+
+// biogo/hts sam: CIGAR operations are opaque integers with an operation type (a byte whose String() is one of
+// M I D N S H P = X B ?) and a non-negative length; Seq.Expand() returns a fresh byte slice of Seq.Length bytes.
+func libCigType(x *Exec, n *ast.CallExpr, recv *Val, recvExpr ast.Expr, st *State, env *Env) Val {
+	x.c.trusted["biogo/hts sam.CigarOp.Type/Len, CigarOpType.String, Seq.Expand: uninterpreted with Len() >= 0 and Expand() a fresh slice of Seq.Length bytes"] = true
+	return Val{T: app("cig.type", recv.T), Ty: env.info.TypeOf(n)}
+}
+func libCigTypeString(x *Exec, n *ast.CallExpr, recv *Val, recvExpr ast.Expr, st *State, env *Env) Val {
+	return Val{T: app("cig.typestr", recv.T), Ty: tString}
+}
+func libCigLen(x *Exec, n *ast.CallExpr, recv *Val, recvExpr ast.Expr, st *State, env *Env) Val {
+	return Val{T: app("cig.len", recv.T), Ty: tInt}
+}
+func libSeqExpand(x *Exec, n *ast.CallExpr, recv *Val, recvExpr ast.Expr, st *State, env *Env) Val {
+	c := x.c
+	ssort := c.sortOf(recv.Ty)
+	ln := c.structGet(ssort, "Length", recv.T)
+	arr := c.freshConst("expanded", "(Array Int "+sortBV8+")")
+	ref := x.allocArray(st, sortBV8, arr)
+	c.assume(st.pc, app(">=", ln, "0"))
+	return Val{T: c.define("sl", sortSlice, app("mkSlice", ref, "0", ln, ln)), Ty: types.NewSlice(tByte)}
+}
+
+
+// biogo sam.Reader: NewReader either fails (nil reader, non-nil error) or yields a reader over a finite ghost sequence of
+// records; Read returns the next record or io.EOF, or a parse error; Header() dereferences the reader.
+func libSamNewReader(x *Exec, n *ast.CallExpr, recv *Val, recvExpr ast.Expr, st *State, env *Env) Val {
+	c := x.c
+	for _, a := range n.Args {
+		x.eval(a, st, env)
+	}
+	h := c.freshConst("samreader", "Int")
+	e := c.freshConst("samerr", sortErr)
+	c.assume("true", and(app(">=", h, "0"), eq(eq(h, "0"), not(eq(e, "err.nil")))))
+	rt := env.info.TypeOf(n).(*types.Tuple)
+	recTy := x.samRecordType(rt.At(0).Type())
+	es := c.sortOf(recTy)
+	arr := c.freshConst("samrecs", "(Array Int "+es+")")
+	cnt := c.freshConst("samrecs.n", "Int")
+	c.assume("true", app(">=", cnt, "0"))
+	st.gh["scan:"+h] = Val{Seq: &SeqVal{Arr: arr, N: cnt, Elem: recTy, ESort: es}}
+	st.gh["scanpos:"+h] = Val{T: "0", Ty: tInt}
+	c.trusted["biogo/hts sam.NewReader/Reader.Read/Header: NewReader fails with a nil reader and non-nil error or succeeds; Read yields a finite sequence of records, then io.EOF, or a parse error"] = true
+	return Val{Tuple: []Val{{T: h, Ty: rt.At(0).Type()}, {T: e, Ty: tError}}}
+}
+
+// samRecordType finds sam.Record from *sam.Reader's package
+func (x *Exec) samRecordType(readerPtr types.Type) types.Type {
+	p := readerPtr.(*types.Pointer).Elem().(*types.Named)
+	return p.Obj().Pkg().Scope().Lookup("Record").Type()
+}
+
+func libSamHeader(x *Exec, n *ast.CallExpr, recv *Val, recvExpr ast.Expr, st *State, env *Env) Val {
+	x.safety("nilderef", n, st, not(eq(x.c.resolveAlias(recv.T), "0")), "reader is not nil")
+	ht := env.info.TypeOf(n)
+	return Val{T: x.c.freshConst("samheader", x.c.sortOf(ht)), Ty: ht}
+}
+
+func libSamRead(x *Exec, n *ast.CallExpr, recv *Val, recvExpr ast.Expr, st *State, env *Env) Val {
+	c := x.c
+	x.safety("nilderef", n, st, not(eq(c.resolveAlias(recv.T), "0")), "reader is not nil")
+	h, seq, pos := scannerState(x, recv, st)
+	more := c.define("more", "Bool", app("<", pos.T, seq.Seq.N))
+	bad := c.freshConst("sambad", "Bool")
+	perr := c.freshConst("samerr", sortErr)
+	eof := x.pkgVar("io", "EOF", tError)
+	c.assume("true", and(not(eq(perr, "err.nil")), not(eq(perr, eof)), not(eq(eof, "err.nil"))))
+	st.gh["scanpos:"+h] = Val{T: c.define("scanpos", "Int", ite(and(more, not(bad)), add(pos.T, "1"), pos.T)), Ty: tInt}
+	rt := env.info.TypeOf(n).(*types.Tuple)
+	rec := Val{T: c.define("rec", seq.Seq.ESort, app("select", seq.Seq.Arr, pos.T)), Ty: rt.At(0).Type()}
+	x.assumeWFAtom(st, Val{T: rec.T, Ty: seq.Seq.Elem})
+	err := Val{T: c.define("err", sortErr, ite(more, ite(bad, perr, "err.nil"), eof)), Ty: tError}
+	return Val{Tuple: []Val{rec, err}}
 }
